@@ -38,8 +38,30 @@ def run_validators(I, fdecl, value):
             ts = [I.as_bool(I.eq_term(value, c)) for c in v.choices]
             if not I.c.branch(z3.Or(*ts) if ts else False, "oneof-ok"):
                 I.raise_(getattr(v, "bad_exc", None) or "ValidationError")
+        elif isinstance(v, LibObj) and v.kind == "mm_length":
+            if not I.c.branch(length_ok(I, v, value), "length-ok"):
+                I.raise_(getattr(v, "bad_exc", None) or "ValidationError")
         else:
             raise Unsupported(f"validator {v!r}")
+
+
+def length_ok(I, v, value):
+    """validate.Length on a string value: min <= len <= max, or len == equal."""
+    from .interp import is_sym
+    if isinstance(value, str):
+        n = z3.IntVal(len(value))
+    elif is_sym(value, "str"):
+        n = z3.Length(value.term)
+    else:
+        raise Unsupported("Length validator on a value that is not a string")
+    conds = []
+    if v.equal is not None:
+        conds.append(n == v.equal)
+    if v.min is not None:
+        conds.append(n >= v.min)
+    if v.max is not None:
+        conds.append(n <= v.max)
+    return z3.simplify(z3.And(*conds)) if conds else z3.BoolVal(True)
 
 
 def deserialize(lib, I, fdecl, schema_obj, value, name, data, node):
